@@ -134,11 +134,31 @@ def abs_item(o):
 
 
 # ------------------------------------------------------------------ running
-def run_value(v, scratch, where='root'):
+def share_equal_containers(val, memo=None):
+    """the same value, with equal dicts / lists below it made ONE object referenced several times (not circular: a DAG)"""
+    memo = {} if memo is None else memo
+    if isinstance(val, dict):
+        for k in list(val):
+            x = val[k]
+            if isinstance(x, (dict, list)):
+                share_equal_containers(x, memo)
+                key = repr(abs_val(x))
+                val[k] = memo.setdefault(key, x)
+    elif isinstance(val, list):
+        for i, x in enumerate(val):
+            if isinstance(x, (dict, list)):
+                share_equal_containers(x, memo)
+                val[i] = memo.setdefault(repr(abs_val(x)), x)
+    return val
+
+
+def run_value(v, scratch, where='root', alias=False):
     import emdfile, h5py
     out = {}
     try:
         val = build(v)
+        if alias:
+            val = share_equal_containers(val)
     except Exception as e:
         return {'build_exc': repr(e)[:80]}
     p = os.path.join(scratch, 'md_%d.h5' % os.getpid())
@@ -200,7 +220,7 @@ def run_value(v, scratch, where='root'):
 def _run_one(args):
     c, scratch = args
     try:
-        return run_value(c['v'], scratch, c.get('where', 'root'))
+        return run_value(c['v'], scratch, c.get('where', 'root'), c.get('alias', False))
     except BaseException:
         import traceback
         return [{'harness_error': traceback.format_exc()[-800:]}]
